@@ -71,6 +71,8 @@ type driver struct {
 	readErr  error
 	accepted []byte // bytes the Writes reported as accepted, concatenated
 	judged   bool
+	// followers: deliberately slow state followers registered in this attempt (each is evicted once, by design)
+	followers int64
 }
 
 func (d *driver) violate(key, format string, a ...any) {
@@ -328,6 +330,9 @@ func (d *driver) writer() bool {
 					return false
 				}
 			}
+			if w.Follower && len(data) == w.N {
+				d.startFollower()
+			}
 			if w.Async {
 				d.sim.InjectFaultsAsync(faults)
 			} else {
@@ -401,6 +406,26 @@ func (d *driver) writer() bool {
 		}
 	}
 	return true
+}
+
+// startFollower: see write.Follower.
+func (d *driver) startFollower() {
+	fr := d.tnc.ListenEnabled()
+	d.mu.Lock()
+	d.followers++
+	d.mu.Unlock()
+	go func() {
+		for range fr.States() {
+			select {
+			case <-time.After(3 * time.Second):
+			case <-d.abort:
+			}
+		}
+	}()
+	whole := func(f []byte, _ int) [][]byte { return [][]byte{f} } // (the driver's PRNG belongs to the script goroutine)
+	d.sim.SendLine("NEWSTATE IRS", whole)
+	d.sim.SendLine("NEWSTATE ISS", whole)
+	d.count("slow_state_followers_registered_before_a_write", 1)
 }
 
 // flush checks "Flush returns only after the TNC reported an empty buffer".
@@ -513,7 +538,7 @@ func runScenario(sc scenario) (out outcome) {
 				d.out.viol = append(d.out.viol, vrt.Violation{Key: v.Key, Desc: fmt.Sprintf("[%s %s] simulated TNC: %s", d.sc.Name, d.sc.Mode, v.Desc)})
 			}
 		}
-		d.out.evicted = evictions.Load() != ev0
+		d.out.evicted = evictions.Load()-ev0 > d.followers
 		d.out.rxBytes, d.out.txBytes = len(d.got), len(d.accepted)
 		out = d.out
 	}()
